@@ -331,6 +331,8 @@ class Normalizer:
             return f"{self.key(e.value)}.{e.attr}"
         if isinstance(e, ast.Subscript):
             return f"{self.key(e.value)}[{self._slice_key(e.slice)}]"
+        if isinstance(e, ast.BinOp) and isinstance(e.op, ast.Add) and (self._is_sequence(e.left) or self._is_sequence(e.right)):
+            return f"{self.key(e.left)} ++ {self.key(e.right)}"  # concatenation is not commutative
         if isinstance(e, (ast.BinOp, ast.UnaryOp)) and self._is_arith(e):
             try:
                 return self.rat(e).key()
@@ -410,6 +412,20 @@ class Normalizer:
             self.no_inline = saved_ni
         br = {"ListComp": "[]", "GeneratorExp": "()", "SetComp": "{}"}[type(e).__name__]
         return f"{br[0]}{elt} {' '.join(gens)}{br[1]}"
+
+    @staticmethod
+    def _is_sequence(e) -> bool:
+        if isinstance(e, (ast.List, ast.Tuple, ast.ListComp)):
+            return True
+        if isinstance(e, ast.Subscript) and isinstance(e.slice, ast.Slice):
+            return True
+        if isinstance(e, ast.Call) and isinstance(e.func, ast.Name) and e.func.id in ("list", "tuple", "sorted"):
+            return True
+        if isinstance(e, ast.BinOp) and isinstance(e.op, ast.Add):
+            return Normalizer._is_sequence(e.left) or Normalizer._is_sequence(e.right)
+        if isinstance(e, ast.BinOp) and isinstance(e.op, ast.Mult):
+            return isinstance(e.left, (ast.List, ast.Tuple)) or isinstance(e.right, (ast.List, ast.Tuple))
+        return False
 
     @staticmethod
     def _is_arith(e) -> bool:
